@@ -233,6 +233,10 @@ func (bmachj *Bondmachine_json) Dejsoner() *Bondmachine {
 			}
 		}
 
+		// A shared object that cannot be instantiated must not be left as a silent nil entry
+		if result.Shared_objects[i] == nil {
+			panic(Prerror{"cannot instantiate shared object \"" + so + "\" while loading a bondmachine"})
+		}
 	}
 	result.Shared_links = bmachj.Shared_links
 	return result
